@@ -98,6 +98,16 @@ MatchesStrict(p, u) == MatchesW(p, u, 1)
 \* the case on which the two readings differ (left open - "either" - by C03)
 WildFacesNothing(p, u) == Matches(p, u) /\ ~MatchesStrict(p, u)
 
+\* Host-shape-aware matching (added for C13/C14; Matches/MatchesStrict/MatchesW above are unchanged).
+\* A trailing wildcard written as a PATH segment ("a.com/x/*") stands for path segments only: it must
+\* not swallow further host labels ("a.com/*" does not match "a.com.evil.net/x"). A wildcard written as
+\* the last HOST label ("*", "a.*") may stand for host labels and path segments.
+WildInPath(p)     == EndsWild(p) /\ ~LastPart(p).h
+HostShapeOK(p, u) == WildInPath(p) => Len(Host(u)) = Len(Host(p))
+MatchesWX(p, u, minTail) == MatchesW(p, u, minTail) /\ HostShapeOK(p, u)
+MatchesX(p, u)       == MatchesWX(p, u, 0)
+MatchesStrictX(p, u) == MatchesWX(p, u, 1)
+
 -------------------------------------------------------------------------------
 (* Specificity: position by position, literal over parameter over wildcard.              *)
 (* Rank(p, i): kind of the i-th part; past the end of a wildcard pattern everything is    *)
